@@ -248,12 +248,15 @@ func (p *ServerProcessor) OnComplete(parser *Parser) {
 		keepAlive := false
 	CONNECTION_VALUES:
 		for _, v := range request.Header["Connection"] {
-			switch strings.ToLower(strings.Trim(v, " ")) {
-			case "close":
-				hasClose = true
-				break CONNECTION_VALUES
-			case "keep-alive":
-				keepAlive = true
+			// a field value is a comma separated list of connection options
+			for _, opt := range strings.Split(v, ",") {
+				switch strings.ToLower(strings.Trim(opt, " \t")) {
+				case "close":
+					hasClose = true
+					break CONNECTION_VALUES
+				case "keep-alive":
+					keepAlive = true
+				}
 			}
 		}
 		if request.ProtoMajor == 1 && request.ProtoMinor == 0 {
